@@ -365,13 +365,26 @@ func isoOracle(res *corr.Result, j *job) {
 		v(fmt.Sprintf("%d subtests for %d scripts", len(obs.Scripts), len(sp.Scripts)), "subtest-count")
 	}
 	names := map[string]bool{}
-	for _, s := range obs.Scripts {
+	for si, s := range obs.Scripts {
+		// a deferred function of the script that panics on purpose (and was registered)
+		wantPanic := ""
+		if si < len(sp.Scripts) {
+			for _, o := range sp.Scripts[si].Ops {
+				if o.T == "D" && len(o.A) > 1 && o.A[1] == "p" {
+					for _, id := range s.Registered {
+						if strconv.Itoa(id) == o.A[0] {
+							wantPanic = "deferred panic " + o.A[0]
+						}
+					}
+				}
+			}
+		}
 		if names[s.Name] {
 			v("two scripts share the name (and so the work directory) "+s.Name, "shared-workdir")
 		}
 		names[s.Name] = true
-		if s.Panic != "" {
-			v("script "+s.Name+" panicked: "+s.Panic, "panic")
+		if s.Panic != wantPanic {
+			v("script "+s.Name+" panicked: "+s.Panic+" (expected: "+wantPanic+")", "panic")
 		}
 		if len(s.FlushAlive) > 0 {
 			v(fmt.Sprintf("script %s: helper(s) %v still alive when the log was flushed", s.Name, s.FlushAlive), "process-alive-at-flush")
@@ -479,6 +492,18 @@ func dlEvaluate(res *corr.Result, j *job, model string) (timingSuspects []string
 	dns := int64(sp.DeadlineMs) * 1e6
 	var reqs []string
 	reqs = append(reqs, fmt.Sprintf("grace %d", dns))
+	// when does the context of each blocked script expire, given when the script started?
+	var ctxScripts []int
+	for i := range obs.Scripts {
+		so := &obs.Scripts[i]
+		switch sp.Scripts[i].Kind {
+		case "quit", "negquit", "ignore":
+			if len(so.Helpers) > 0 && so.Helpers[0].SigNs != 0 {
+				ctxScripts = append(ctxScripts, i)
+				reqs = append(reqs, fmt.Sprintf("ctxdl 0 %d %d", so.Helpers[0].StartNs-obs.T0Unix, dns))
+			}
+		}
+	}
 	type q struct {
 		script  int
 		alts    []string
@@ -534,6 +559,19 @@ func dlEvaluate(res *corr.Result, j *job, model string) (timingSuspects []string
 		return
 	}
 	k := 1
+	for _, i := range ctxScripts {
+		so := &obs.Scripts[i]
+		var x int64
+		if n, _ := fmt.Sscanf(out[k], "x=%d", &x); n != 1 {
+			res.DisagreeFor([]string{"C17"}, reqs[k], "", out[k])
+		} else {
+			at := so.Helpers[0].SigNs - obs.T0Unix
+			if at/1e6 < x/1e6-guardEarlyMs || at/1e6 > x/1e6+guardLateMs {
+				res.DisagreeFor([]string{"C17"}, j.id+" script "+so.Name+": "+reqs[k], fmt.Sprintf("interrupted at %dms after the RunT call", at/1e6), fmt.Sprintf("context expires at %dms", x/1e6))
+			}
+		}
+		k++
+	}
 	for _, x := range qs {
 		so := &obs.Scripts[x.script]
 		member := false
@@ -623,6 +661,9 @@ func dlEvaluate(res *corr.Result, j *job, model string) (timingSuspects []string
 			v(fmt.Sprintf("script %s: helper still alive when the log was flushed", so.Name), "process-alive-at-flush")
 		}
 	}
+	if sp.Sequential && ms(obs.ReturnNs) > int64(sp.DeadlineMs)+guardLateMs {
+		suspect(fmt.Sprintf("RunT (sequential subtests) returned at %dms, deadline %dms", ms(obs.ReturnNs), sp.DeadlineMs))
+	}
 	if ms(obs.AllDoneNs) > int64(sp.DeadlineMs)+guardLateMs {
 		suspect(fmt.Sprintf("all subtests finished at %dms, deadline %dms", ms(obs.AllDoneNs), sp.DeadlineMs))
 	}
@@ -657,6 +698,10 @@ func dlEvaluate(res *corr.Result, j *job, model string) (timingSuspects []string
 	edge := ""
 	if len(sp.Scripts) > 0 && sp.Scripts[0].Kind == "edge" {
 		edge = "_edge"
+	}
+	if sp.Sequential {
+		edge = "_sequential"
+		res.Distribution["deadline-batches-sequential"]++
 	}
 	res.Extra[fmt.Sprintf("deadline_%dms%s_margin_ms", sp.DeadlineMs, edge)] = int64(sp.DeadlineMs) - ms(obs.AllDoneNs)
 	return
@@ -839,7 +884,9 @@ func runTsLife(tier string, seed int64, model string, replay string) *corr.Resul
 	defer os.RemoveAll(top)
 
 	nIso, dls, variants, edges := 300, []int{600, 1000, 2000, 3000}, 1, []int{1000}
+	seqs := []int{4000}
 	if tier == "thorough" {
+		seqs = []int{3000, 4000, 6000}
 		nIso, variants = 3000, 4
 		dls = []int{300, 600, 1000, 1500, 2000, 2500, 3000, 4000}
 		edges = []int{400, 600, 1000, 2000, 3000}
@@ -872,6 +919,9 @@ func runTsLife(tier string, seed int64, model string, replay string) *corr.Resul
 		}
 		for _, d := range edges {
 			jobs = append(jobs, &job{id: fmt.Sprintf("dl:%d:%d:%d", seed, d, 100), spec: genDeadlineBatch(seed, d, 100)})
+		}
+		for _, d := range seqs {
+			jobs = append(jobs, &job{id: fmt.Sprintf("dl:%d:%d:%d", seed, d, 200), spec: genDeadlineBatch(seed, d, 200)})
 		}
 		for i := 0; i < nIso; i++ {
 			b := genIsoBatch(seed, i)
@@ -1008,6 +1058,15 @@ func runTsLife(tier string, seed int64, model string, replay string) *corr.Resul
 			continue
 		}
 		isoOracle(res, j)
+		{
+			// the names RunT gave to the subtests, against the model's naming function
+			var fn []string
+			for _, sc := range j.spec.Scripts {
+				fn = append(fn, hx(filepath.Base(sc.File)))
+			}
+			reqs = append(reqs, "names "+strings.Join(fn, ","))
+			refs = append(refs, ref{j, -2})
+		}
 		if len(j.obs.CleanupLog) > 0 {
 			idx := map[string]int{}
 			for i, so := range j.obs.Scripts {
@@ -1041,6 +1100,20 @@ func runTsLife(tier string, seed int64, model string, replay string) *corr.Resul
 	} else {
 		nontrivial := 0
 		for k, r := range refs {
+			if r.i == -2 {
+				var got []string
+				for _, so := range r.j.obs.Scripts {
+					got = append(got, hx(so.Name))
+				}
+				if strings.Join(got, ",") != out[k] {
+					var names []string
+					for _, so := range r.j.obs.Scripts {
+						names = append(names, so.Name)
+					}
+					res.DisagreeFor([]string{"C04"}, r.j.id+" :: "+reqs[k], "subtest names "+strings.Join(names, " "), out[k])
+				}
+				continue
+			}
 			if r.i < 0 {
 				// the logged operations of the real cleanup closures must be a run of the model, ending complete
 				res.Distribution["cleanup-traces-replayed"]++
@@ -1082,6 +1155,19 @@ func runTsLife(tier string, seed int64, model string, replay string) *corr.Resul
 		}
 		sp := j.spec
 		res.Distribution[fmt.Sprintf("batch-size-%02d", len(sp.Scripts))]++
+		if sp.UseDir {
+			res.Distribution["batches-params-dir"]++
+		}
+		for _, sc := range sp.Scripts {
+			if strings.Contains(sc.File, "#") {
+				res.Distribution["scripts-with-#-in-file-name"]++
+			}
+			for _, o := range sc.Ops {
+				if o.T == "D" && len(o.A) > 1 && o.A[1] != "" {
+					res.Distribution["scripts-with-aborting-deferred-function"]++
+				}
+			}
+		}
 		if sp.TestWork {
 			res.Distribution["batches-testwork"]++
 		}
